@@ -134,11 +134,12 @@ impl<'a> core::ops::DerefMut for DecyclerGuard<'a> {
 }
 
 
-pub fn traverse_with_callbacks<P: ColorPainter>(
+pub fn traverse_with_callbacks(
     paint: &ResolvedPaint,
     instance: &ColrInstance,
-    painter: &mut P,
+    painter: &mut impl ColorPainter,
     decycler: &mut PaintDecycler,
+    resolved_stops: &mut ColorStopVec,
     recurse_depth: usize,
 ) -> (res: Result<(), PaintError>)
     ensures
@@ -159,12 +160,13 @@ pub fn traverse_with_callbacks<P: ColorPainter>(
         | ResolvedPaint::Translate {
             paint: next_paint, ..
         } => {
-            painter.push_transform(to_transform(paint)?);
+            painter.push_transform(paint.try_into()?);
             let result = traverse_with_callbacks(
                 &resolve_paint(instance, next_paint)?,
                 instance,
                 painter,
                 decycler,
+                resolved_stops,
                 recurse_depth + 1,
             );
             painter.pop_transform();
@@ -182,7 +184,8 @@ pub fn traverse_with_callbacks<P: ColorPainter>(
                     instance,
                     painter,
                     &mut cycle_guard,
-                    recurse_depth + 1,
+                    resolved_stops,
+                recurse_depth + 1,
                 )?;
             }
             Ok(())
@@ -198,6 +201,7 @@ pub fn traverse_with_callbacks<P: ColorPainter>(
                 instance,
                 painter,
                 decycler,
+                resolved_stops,
                 recurse_depth + 1,
             );
             result?;
@@ -207,6 +211,7 @@ pub fn traverse_with_callbacks<P: ColorPainter>(
                 instance,
                 painter,
                 decycler,
+                resolved_stops,
                 recurse_depth + 1,
             );
             painter.pop_layer_with_mode(*mode);
@@ -222,6 +227,7 @@ pub fn traverse_with_callbacks<P: ColorPainter>(
                 instance,
                 &mut optimizer,
                 decycler,
+                resolved_stops,
                 recurse_depth + 1,
             );
 
@@ -233,7 +239,8 @@ pub fn traverse_with_callbacks<P: ColorPainter>(
                     instance,
                     painter,
                     decycler,
-                    recurse_depth + 1,
+                    resolved_stops,
+                recurse_depth + 1,
                 );
                 painter.pop_clip();
             }
@@ -260,7 +267,8 @@ pub fn traverse_with_callbacks<P: ColorPainter>(
                                 instance,
                                 painter,
                                 &mut cycle_guard,
-                                recurse_depth + 1,
+                                resolved_stops,
+                recurse_depth + 1,
                             );
                             if clipbox.is_some() {
                                 painter.pop_clip();
@@ -393,8 +401,11 @@ impl ColrInstance {
     #[verifier::external_body]
     pub fn v1_layer(&self, index: usize) -> Result<(Paint, PaintId), PaintError> { unimplemented!() }
 }
-#[verifier::external_body]
-pub fn to_transform(paint: &ResolvedPaint) -> Result<Transform, PaintError> { unimplemented!() }
+impl TryFrom<&ResolvedPaint> for Transform {
+    type Error = PaintError;
+    #[verifier::external_body]
+    fn try_from(paint: &ResolvedPaint) -> Result<Self, Self::Error> { unimplemented!() }
+}
 
 }
 fn main() {}
